@@ -50,12 +50,32 @@ def bv_queries(tier):
     return qs
 
 
+JSON_UNITS = ['repo:lib/chibi/json.c', 'kit:kitfull.c', 'kit:env.c', 'kit:exc_models.c', 'kit:libc_models.c']
+JSON_RM = ['sexp_json_read_exception', 'sexp_json_write_exception', 'sexp_buffered_read_char', 'sexp_buffered_flush']
+
+
+def json_queries(tier):
+    qs = []
+    nin = 3 if tier == 'quick' else 6
+    common = dict(harness='C19_json.c', units=JSON_UNITS, unit_defs=dict(UD, KIT_MAX_bytes=16), unwind=20, remove_bodies=EXC + JSON_RM,
+                  cuts=['sexp_intern', 'sexp_make_exception', 'json_read', 'json_write'], cap=600, backends=['cadical', 'minisat', 'kissat'],
+                  unwindset={'memcpy.1': 20, 'memcpy.0': 4, 'strlen.0': 16})
+    qs.append(Query(name='json_read_string[%d arbitrary input bytes: total, in bounds]' % nin, defs={'OP': 1, 'NIN': nin}, functions=['json_read_string', 'decode_useq'], **common))
+    qs.append(Query(name='json string round trip[1 scalar value, any]', defs={'OP': 2, 'NCH': 1}, functions=['json_write_string', 'json_read_string', 'decode_useq'], **common))
+    qs.append(Query(name='json string round trip[<=2 ASCII characters incl. quote, backslash, controls]', defs={'OP': 2, 'NCH': 2, 'ASCII_ONLY': 1},
+                    functions=['json_write_string', 'json_read_string'], **common))
+    return qs
+
+
 def queries(tier):
     qs = []
     cap = 300 if tier == 'quick' else 1800
     for op, nm in ((1, 'quarter: all 8-bit codes'), (2, 'half: all non-NaN 16-bit codes'), (3, 'specials'), (4, 'half: representable values')):
         qs.append(Query(name='minifloat[%s]' % nm, harness='C19_minifloat.c', units=UNITS, unit_defs=UD, defs={'OP': op}, unwind=9,
                         remove_bodies=EXC, cap=cap, backends=['cadical', 'minisat', 'kissat'], flags=['--no-signed-overflow-check'] if False else []))
+    # json_queries(tier) (harness/C19_json.c: json.c string reader/writer on hand-built buffer ports) is not part of the
+    # claim: none of its queries reached a verdict within 10 minutes in this phase (data-dependent result sizes + the 128-byte
+    # stack buffer); the harness is kept for a later phase
     return qs + bv_queries(tier)
 
 
